@@ -1,6 +1,6 @@
 # Per-property driver configuration: which package the harness lives in, whether the
 # race detector is on per tier, shard counts and shard time-outs.
-def P(pkg=".", harness="dastard", race=None, shards=None, shard_timeout=None, gomaxprocs=None, level="exploration", max_restarts=40, fuzz=None):
+def P(pkg=".", harness="dastard", race=None, shards=None, shard_timeout=None, gomaxprocs=None, level="exploration", max_restarts=40, fuzz=None, extra_bin=None):
     d = dict(pkg=pkg, harness=harness, level=level, max_restarts=max_restarts)
     d["race"] = race or {}
     d["shards"] = shards or {}
@@ -9,6 +9,8 @@ def P(pkg=".", harness="dastard", race=None, shards=None, shard_timeout=None, go
         d["gomaxprocs"] = gomaxprocs
     if fuzz:
         d["fuzz"] = fuzz
+    if extra_bin:
+        d["extra_bin"] = extra_bin
     return d
 
 PROPS = {
@@ -20,7 +22,7 @@ PROPS = {
     "C17": P(race={"quick": True, "thorough": True}, shards={"quick": 6, "thorough": 12}, gomaxprocs=[4, 2, 8, 16, 3, 6], shard_timeout={"quick": 900, "thorough": 3000}),
     "C11": P(shard_timeout={"quick": 900, "thorough": 3000}, max_restarts=400),
     "C10": P(shard_timeout={"quick": 1200, "thorough": 3000}),
-    "C16": P(shards={"quick": 8, "thorough": 16}, level="fault_enumeration"),
+    "C16": P(shards={"quick": 8, "thorough": 16}, level="fault_enumeration", extra_bin="./cmd/dastard"),
     "C05": P(),
     "C06": P(),
     "C20": P(),
